@@ -243,7 +243,7 @@ def r5_typability(facts, rep):
             whole = members <= ref_rest
             dom = c12.LexDomain(ats, facts=facts)
             it = core.Interp(facts, dom, budget=200000)
-            st = dom.setlex({(0, 0): c12.lexer_value(False)}, lo, "EOF")
+            st = dom.setlex({(0, 0): c12.lexer_value(False, facts)}, lo, "EOF")
             outs = it.run(cw, [Ref(0, 0)], st)
             acc = bool(outs) and all(o.kind == "ret" and o.value == c12.POSITIVE for o in outs)
             rep.ob("C16-R5", "consume_word-accepts:%s" % chars.describe(lo), acc,
@@ -252,7 +252,7 @@ def r5_typability(facts, rep):
         if members & ref_first:
             dom = c12.LexDomain(ats, facts=facts)
             it = core.Interp(facts, dom, budget=200000)
-            st = dom.setlex({(0, 0): c12.lexer_value(False)}, lo, None)
+            st = dom.setlex({(0, 0): c12.lexer_value(False, facts)}, lo, None)
             outs = it.run(nx, [Ref(0, 0)], st)
             kinds = set()
             for o in outs:
